@@ -93,16 +93,19 @@ def expected_presence(g, cfg):
     }
 
 
-def run_config(cfg, ncalls=3, port=8899, rnd=None, readlog=None, extra=None, mbap_len_bug=None):
+def run_config(cfg, ncalls=3, port=8899, rnd=None, readlog=None, extra=None, mbap_len_bug=None, retries=0, keep_alive=None, exc_delay=0.0):
     """read_device_info() then `ncalls` x read_runtime_data(); returns dict with per-call outcomes, key sets, sensors() ids,
     short reads seen by the read-log hook, the simulator (wire log)."""
     g = env.goodwe()
     sim = make_sim(cfg, rnd=rnd)
     sim.mbap_len_bug = mbap_len_bug
+    sim.exc_delay = exc_delay
     res = {"calls": [], "sim": sim, "short_reads": []}
 
     async def flow(loop):
-        inv = models.family_cls(g, cfg["family"])("inv0", port, 0, 1, 0)
+        inv = models.family_cls(g, cfg["family"])("inv0", port, 0, 1, retries)
+        if keep_alive is not None:
+            inv.set_keep_alive(keep_alive)
         res["inv"] = inv
         await inv.read_device_info()
         res["ids_after_info"] = {s.id_ for s in inv.sensors()}      # (sensor discovery before the first poll, as integrations do)
